@@ -1335,3 +1335,68 @@ fire("add-effects-drops-callables", ["C02"], "R-DC", D,
 silent("add-effects-builds-then-appends", ["C02"], D,
        "        for effect in effects:\n            if isinstance(effect, Effect):\n                self.effects.append(effect)\n            else:\n                self.effects.append(CallbackEffect(effect))",
        "        for effect in effects:\n            wrapped = effect if isinstance(effect, Effect) else CallbackEffect(effect)\n            self.effects.append(wrapped)")
+
+# ------------------------------------------------------------------ round 7 (second half): obligations added for the regression PRs
+fire("kwargs-shared-readonly-empty-mapping", ["C20"], "R-PL", AR,
+     "    def __init__(self, **kwargs: Evaluatable[\"P.kwargs\"]):\n        self.kwargs = kwargs\n",
+     "    def __init__(self, **kwargs: Evaluatable[\"P.kwargs\"]):\n        self.kwargs = kwargs or _NO_KWARGS\n",
+     also=[("from .types import Evaluatable, MaybeEvaluatable, Options\n", "from .types import Evaluatable, MaybeEvaluatable, Options\nfrom types import MappingProxyType\n\n_NO_KWARGS = MappingProxyType({})\n")],
+     note="pickle refuses mappingproxy objects: every graph with an argument-less application stops pickling")
+silent("kwargs-plain-dict-copy", ["C20", "C13", "C01"], AR,
+       "    def __init__(self, **kwargs: Evaluatable[\"P.kwargs\"]):\n        self.kwargs = kwargs\n",
+       "    def __init__(self, **kwargs: Evaluatable[\"P.kwargs\"]):\n        self.kwargs = dict(kwargs)\n")
+fire("memorycache-get-fails-on-uncopyable", ["C02", "C17"], "R-MC", C,
+     "        try:\n            return self._cache[evaluatable.fingerprint(options)]\n        except KeyError as e:\n            raise CacheGetFailure(evaluatable, options, self) from e\n",
+     "        try:\n            value = self._cache[evaluatable.fingerprint(options)]\n        except KeyError as e:\n            raise CacheGetFailure(evaluatable, options, self) from e\n        try:\n            return copy.deepcopy(value)\n        except Exception as e:\n            raise CacheGetFailure(evaluatable, options, self) from e\n",
+     also=[("from abc import ABC, abstractmethod\n", "import copy\nfrom abc import ABC, abstractmethod\n")],
+     note="a value that cannot be deep-copied is stored but can never be read: every request recomputes")
+silent("memorycache-get-copies-with-fallback", ["C02", "C17", "C01"], C,
+       "        try:\n            return self._cache[evaluatable.fingerprint(options)]\n        except KeyError as e:\n            raise CacheGetFailure(evaluatable, options, self) from e\n",
+       "        try:\n            value = self._cache[evaluatable.fingerprint(options)]\n        except KeyError as e:\n            raise CacheGetFailure(evaluatable, options, self) from e\n        try:\n            return copy.deepcopy(value)\n        except Exception:\n            return value\n",
+       also=[("from abc import ABC, abstractmethod\n", "import copy\nfrom abc import ABC, abstractmethod\n")])
+fire("args-evaluate-memo-by-repr", ["C16", "C05"], "R-LM", AR,
+     "        return tuple(arg.evaluate(options) for arg in self.args)  # type: ignore\n",
+     "        seen = {}\n        out = []\n        for arg in self.args:\n            token = repr(arg)\n            if token not in seen:\n                seen[token] = arg.evaluate(options)\n            out.append(seen[token])\n        return tuple(out)  # type: ignore\n",
+     note="results handed out again for arguments that print alike: with caching disabled a repeated dataset argument no longer recomputes")
+fire("args-keys-dedupe-by-repr", ["C01", "C03", "C17", "C18"], "R-LM", AR,
+     "        return set().union(*(arg.keys(options) for arg in self.args))\n",
+     "        distinct = {}\n        for arg in self.args:\n            distinct.setdefault(repr(arg), arg)\n        return set().union(*(arg.keys(options) for arg in distinct.values()))\n",
+     note="Option('L') and Option('L', domain=…) print alike; the second one's keys are dropped")
+silent("args-keys-dedupe-by-identity", ["C01", "C03", "C17", "C18", "C16"], AR,
+       "        return set().union(*(arg.keys(options) for arg in self.args))\n",
+       "        distinct = {}\n        for arg in self.args:\n            distinct.setdefault(id(arg), arg)\n        return set().union(*(arg.keys(options) for arg in distinct.values()))\n")
+fire("type-handler-evaluates-configurable-type", ["C11", "C01", "C16"], "R-SH", "labrea/type_validation.py",
+     "def _empty_handler(request: TypeValidationRequest):\n    return\n",
+     "def _empty_handler(request: TypeValidationRequest):\n    expected = request.type\n    if hasattr(expected, \"evaluate\"):\n        expected = expected.evaluate(request.options)\n    return\n")
+fire("switch-depends-on-failed-dispatch", ["C10", "C01", "C03"], "R-KC", CO,
+     "            if self.default is MISSING:\n                raise e\n            return self.default\n",
+     "            if self.default is MISSING:\n                raise e\n            return _DependsOn(self.default, self.dispatch)  # type: ignore\n",
+     note="keys() asks the dispatch for its keys right after evaluating it failed: keys(o) fails where validate(o)/evaluate(o) take the default")
+fire("fingerprint-sorts-sequence-values", ["C08", "C01", "C03"], "R-FP", T,
+     "            [{key: get_dotted_key(key, options)} for key in sorted(self.keys(options))]\n",
+     "            [{key: _canonical(get_dotted_key(key, options))} for key in sorted(self.keys(options))]\n",
+     also=[("class Value(Evaluatable[A]):", "def _canonical(value):\n    if isinstance(value, (set, frozenset, list, tuple)):\n        return sorted(value, key=repr)\n    return value\n\n\nclass Value(Evaluatable[A]):")])
+fire("apply-keys-from-explain", ["C03", "C01"], "R-PO", T,
+     "        return self.evaluatable.keys(options) | self.func.keys(options)",
+     "        return self.evaluatable.keys(options) | self.func.explain(options)",
+     note="explain() lists keys whether present or not: keys() then reports absent keys and fingerprint() raises KeyError")
+fire("value-subclass-overrides-evaluate-only", ["C10"], "R-VA", T,
+     "class Apply(Generic[A, B], Evaluatable[B]):",
+     "class _Resolved(Value[A]):\n    def evaluate(self, options: Options) -> A:\n        return get_dotted_key(self.value, options)  # type: ignore\n\n\nclass Apply(Generic[A, B], Evaluatable[B]):",
+     note="inherits Value.validate (always passes) for an evaluate() that needs the referenced options")
+silent("shared-base-leaves-evaluate-to-subclasses", ["C10", "C01", "C03", "C11"], AR,
+       "class EvaluatableArgs(Generic[P], Evaluatable[\"P.args\"]):",
+       "class _Parts(Evaluatable[A]):\n    def _parts(self):\n        raise NotImplementedError\n\n    def validate(self, options: Options) -> None:\n        for part in self._parts():\n            part.validate(options)\n\n\nclass EvaluatableArgs(Generic[P], Evaluatable[\"P.args\"]):",
+       also=[("from typing import Dict, Generic, Optional, Set, Tuple\n", "from typing import Dict, Generic, Optional, Set, Tuple, TypeVar\n\nA = TypeVar(\"A\")\n")],
+       note="an abstract helper base without an evaluate() of its own (never instantiated)")
+fire("logscope-exit-returns-handler-result", ["C12"], "R-EX", LG,
+     "class Logged(Evaluatable[A]):",
+     "class _Scope:\n    def __init__(self, request):\n        self.request = request\n\n    def __enter__(self):\n        return self\n\n    def __exit__(self, exc_type, exc_value, traceback):\n        return self.request.run()\n\n\nclass Logged(Evaluatable[A]):")
+silent("logscope-exit-returns-false", ["C12", "C14"], LG,
+       "class Logged(Evaluatable[A]):",
+       "class _Scope:\n    def __init__(self, request):\n        self.request = request\n\n    def __enter__(self):\n        return self\n\n    def __exit__(self, exc_type, exc_value, traceback):\n        self.request.run()\n        return False\n\n\nclass Logged(Evaluatable[A]):")
+fire("chained-effect-validate-raises-runtimeerror", ["C05", "C12"], "R-EH", CP,
+     "class ChainedEffect(Effect[A]):",
+     "class EffectError(RuntimeError):\n    pass\n\n\nclass ChainedEffect(Effect[A]):",
+     also=[("        for effect in self.effects:\n            effect.validate(options)\n", "        for effect in self.effects:\n            try:\n                effect.validate(options)\n            except EvaluationError as e:\n                raise EffectError(repr(effect)) from e\n"),
+           ("from .option import Option\n", "from .exceptions import EvaluationError\nfrom .option import Option\n")])
